@@ -5,6 +5,7 @@ CONSTANTS
   Methods <- SomeMethods
   Paths <- SomePaths
   Counter <- CounterTuple
+  Vers = {1}
   MaxSeq = 1
   MaxUpd = 1
 INVARIANTS AckRelayerField
